@@ -392,7 +392,41 @@ def check_group(out, ops, meta, io, mo):
             return
     # correspondence with the model
     if mo is not None:
-        d = sessions.first_diff(io, mo)
+        # The model keeps the registry of a merge result "parents first" (a re-parented subtree moves to the end), the code keeps
+        # dict insertion order.  As long as results are only looked at, nothing can tell; as INPUTS of a further merge the order of
+        # their declarations matters exactly where merging is order dependent (outside StableCompete: region of finding M6).  There
+        # the ops that merge results again are not compared with the model (the oracles above still judge the implementation).
+        first_extra = min([i_ for _t, i_ in meta.get("group_ops", [])] or [len(ops)])
+        sups_ = {}
+        for t_ in tsds:
+            for n_, s_ in t_["types"]:
+                sups_.setdefault(n_, set()).add(s_)
+        comp_ = [n_ for n_, ss in sups_.items() if len(ss) > 1]
+
+        def anc_(x, seen=None):
+            seen = seen if seen is not None else set()
+            if x not in seen:
+                seen.add(x)
+                for s2 in sups_.get(x, ()):
+                    anc_(s2, seen)
+            return seen
+        stable_ = all(a_ not in comp_ for n_ in comp_ for s_ in sups_[n_] for a_ in anc_(s_))
+        skip_ = set()
+        if not stable_:
+            P_ = len(meta["perms"])
+            skip_ = {i_ for _t, i_ in meta.get("group_ops", [])}
+            for di_ in meta["dumps"][P_:]:
+                skip_ |= {di_, di_ + 1}
+        extra_dumps_ = set(meta["dumps"][len(meta["perms"]):])
+
+        def canon_(i_, x_):
+            if i_ in skip_:
+                return "not compared"
+            if i_ in extra_dumps_ and isinstance(x_, dict) and isinstance(x_.get("ok"), dict):
+                # results of merging merge results: the order of the children lists follows the registry order of the inputs
+                return {"ok": {n_: dict(r_, children=sorted(r_.get("children") or [])) for n_, r_ in x_["ok"].items()}}
+            return x_
+        d = sessions.first_diff(io, mo, canon_)
         if d is not None:
             out.disagreements.append({"scenario": sc, "op_index": d, "impl": io[d] if d < len(io) else None,
                                       "model": mo[d] if mo and d < len(mo) else None})
